@@ -36,7 +36,7 @@ def build(n, style="fullend"):
     return Tree(files, EMBEDDINGS["yearend6h"], "Y/M/D", style)
 
 
-def run_call(api, n, W, fail, e2w, order, flavour, use_files, rng=None):
+def run_call(api, n, W, fail, e2w, order, flavour, use_files, rng=None, implicit_workers=False):
     """Executes one map/imap/collect/icollect call under the gate; returns the event log and notes."""
     import typhon.files.fileset as FM
     tree = build(n)
@@ -60,6 +60,11 @@ def run_call(api, n, W, fail, e2w, order, flavour, use_files, rng=None):
             return ("r", fid)
         sel = {"files": list(fs.find())} if use_files else {}
         common = dict(max_workers=W, worker_type="thread", return_info=True, **sel)
+        if implicit_workers and api in ("map", "imap"):
+            # the pool size is NOT given with the call: it is the fileset's max_threads, because threads are asked for -
+            # whatever the fileset's own default worker type and its max_processes are
+            fs.worker_type, fs.max_threads, fs.max_processes = "process", W, W + 3
+            del common["max_workers"]
         if flavour == "reader":
             common.update(on_content=True, pass_info=True, error_to_warning=e2w)
         results = None
@@ -110,7 +115,9 @@ def replay_case(col, item):
     rep = {"abstract": {"n": n, "W": W, "fail": fail, "e2w": e2w, "completion_order": order, "lazy": case["lazy"]},
            "concrete": conf}
     try:
-        ev, notes = run_call(api, n, W, fail, e2w, order, flavour, conf["files_arg"])
+        conf["pool_size_from_fileset_defaults"] = bool(variant % 4 == 0 and api in ("map", "imap"))
+        ev, notes = run_call(api, n, W, fail, e2w, order, flavour, conf["files_arg"],
+                             implicit_workers=conf["pool_size_from_fileset_defaults"])
     except Exception as ex:
         col.violation("%s-raises-%s" % (api, type(ex).__name__) + ("-all-failed" if e2w and len(fail) == n else ""),
                       dict(rep, observed=repr(ex)[:300]))
